@@ -4,8 +4,9 @@ from fractions import Fraction
 sys.set_int_max_str_digits(0)
 
 VERIF = os.path.dirname(os.path.dirname(os.path.abspath(__file__)))
-LEAN = os.path.join(VERIF, "lean")
-HARNESS = os.path.join(VERIF, "harness")
+# development only: a scratch copy of the Lean project / of the harness (pointing at a scratch worktree of /repo)
+LEAN = os.environ.get("VERIF_LEAN_DIR") or os.path.join(VERIF, "lean")
+HARNESS = os.environ.get("VERIF_HARNESS_DIR") or os.path.join(VERIF, "harness")
 WORK = os.path.join(VERIF, "work")
 REPLAYS = os.path.join(VERIF, "replays")
 EVIDENCE = os.path.join(VERIF, "evidence")
@@ -172,6 +173,21 @@ class Case:
 
     def with_target(self, target, text=None):
         return Case(self.mode, self.text if text is None else text, self.ops, target, self.meta)
+
+
+def hop_ops(ops, t0, slot=0):
+    """insert a clone-and-continue-on-the-clone after the t0-th update (t0 = 0: a clone of the fresh view): `K slot`
+    clones the current view into the slot, `W slot` swaps it in.  By C17 nothing observable may change."""
+    out, n = [], 0
+    if t0 == 0:
+        out += ["K %d" % slot, "W %d" % slot]
+    for o in ops:
+        out.append(o)
+        if o[0] in "XU":
+            n += 1
+            if n == t0:
+                out += ["K %d" % slot, "W %d" % slot]
+    return out
 
 
 def xs_ops(mode, values):
